@@ -11,17 +11,19 @@ namespace TarpcModel.Server
 
 /-- what `rearm` does to a tracked entry: the entries with the id get the new key and pay the armed
 timeout out of their remainder -/
-def rearmUpd (id key late : Nat) (x : SEntry) : SEntry :=
+def rearmUpd (id key now : Nat) (x : SEntry) : SEntry :=
   if x.id == id then
-    { x with timerKey := key, remainder := (x.remainder - late) - clampTimeout (x.remainder - late) }
+    { x with timerKey := key,
+             dueAt := now + clampTimeout (restOf now x),
+             remainder := restOf now x - clampTimeout (restOf now x) }
   else x
 
 /-- the two outcomes of `rearm` -/
-theorem rearm_cases (s : St) (now late : Nat) (en : SEntry) :
-    ((s.timers.insert now (clampTimeout (en.remainder - late)) en.id).2.1 = .panic ∧ rearm s now late en = none) ∨
-    (∃ q key w, s.timers.insert now (clampTimeout (en.remainder - late)) en.id = (q, .ok key, w) ∧
-      rearm s now late en = some { (if w = true then wakeServer s else s) with
-        timers := q, inflight := s.inflight.map (rearmUpd en.id key late) }) := by
+theorem rearm_cases (s : St) (now : Nat) (en : SEntry) :
+    ((s.timers.insert now (clampTimeout (restOf now en)) en.id).2.1 = .panic ∧ rearm s now en = none) ∨
+    (∃ q key w, s.timers.insert now (clampTimeout (restOf now en)) en.id = (q, .ok key, w) ∧
+      rearm s now en = some { (if w = true then wakeServer s else s) with
+        timers := q, inflight := s.inflight.map (rearmUpd en.id key now) }) := by
   unfold rearm
   split
   · next hq => left; exact ⟨by rw [hq], rfl⟩
@@ -35,27 +37,27 @@ theorem rearm_cases (s : St) (now late : Nat) (en : SEntry) :
       have : (wakeServer s).inflight = s.inflight := by unfold wakeServer; split <;> rfl
       rw [this]; rfl
 
-theorem rearm_some {s s2 : St} {now late : Nat} {en : SEntry} (h : rearm s now late en = some s2) :
-    ∃ q key w, s.timers.insert now (clampTimeout (en.remainder - late)) en.id = (q, .ok key, w) ∧
+theorem rearm_some {s s2 : St} {now : Nat} {en : SEntry} (h : rearm s now en = some s2) :
+    ∃ q key w, s.timers.insert now (clampTimeout (restOf now en)) en.id = (q, .ok key, w) ∧
       s2 = { (if w = true then wakeServer s else s) with
-        timers := q, inflight := s.inflight.map (rearmUpd en.id key late) } := by
-  rcases rearm_cases s now late en with ⟨_, he⟩ | ⟨q, key, w, hi, he⟩
+        timers := q, inflight := s.inflight.map (rearmUpd en.id key now) } := by
+  rcases rearm_cases s now en with ⟨_, he⟩ | ⟨q, key, w, hi, he⟩
   · rw [he] at h; cases h
   · rw [he] at h; cases h; exact ⟨q, key, w, hi, rfl⟩
 
-theorem rearm_none {s : St} {now late : Nat} {en : SEntry} (h : rearm s now late en = none) :
-    (s.timers.insert now (clampTimeout (en.remainder - late)) en.id).2.1 = .panic := by
-  rcases rearm_cases s now late en with ⟨hp, _⟩ | ⟨q, key, w, hi, he⟩
+theorem rearm_none {s : St} {now : Nat} {en : SEntry} (h : rearm s now en = none) :
+    (s.timers.insert now (clampTimeout (restOf now en)) en.id).2.1 = .panic := by
+  rcases rearm_cases s now en with ⟨hp, _⟩ | ⟨q, key, w, hi, he⟩
   · exact hp
   · rw [he] at h; cases h
 
-@[simp] theorem rearmUpd_id (id key late : Nat) (x : SEntry) : (rearmUpd id key late x).id = x.id := by
+@[simp] theorem rearmUpd_id (id key now : Nat) (x : SEntry) : (rearmUpd id key now x).id = x.id := by
   unfold rearmUpd; split <;> rfl
 
-@[simp] theorem rearmUpd_rid (id key late : Nat) (x : SEntry) : (rearmUpd id key late x).rid = x.rid := by
+@[simp] theorem rearmUpd_rid (id key now : Nat) (x : SEntry) : (rearmUpd id key now x).rid = x.rid := by
   unfold rearmUpd; split <;> rfl
 
-theorem rearmUpd_ne {id key late : Nat} {x : SEntry} (h : x.id ≠ id) : rearmUpd id key late x = x := by
+theorem rearmUpd_ne {id key now : Nat} {x : SEntry} (h : x.id ≠ id) : rearmUpd id key now x = x := by
   unfold rearmUpd; rw [if_neg (by simpa using h)]
 
 /-- the fields a successful `rearm` never touches -/
@@ -81,8 +83,8 @@ structure RearmFrame (s s' : St) : Prop where
   respCap : s'.respCap = s.respCap
   rqRxWaker : s'.rqRxWaker = s.rqRxWaker
 
-theorem rearm_frame {s s2 : St} {now late : Nat} {en : SEntry} (h : rearm s now late en = some s2) : RearmFrame s s2 := by
-  rcases rearm_cases s now late en with ⟨_, he⟩ | ⟨q, key, w, _, he⟩
+theorem rearm_frame {s s2 : St} {now : Nat} {en : SEntry} (h : rearm s now en = some s2) : RearmFrame s s2 := by
+  rcases rearm_cases s now en with ⟨_, he⟩ | ⟨q, key, w, _, he⟩
   · rw [he] at h; cases h
   · rw [he] at h
     cases h
@@ -97,14 +99,14 @@ inductive ExpShape (s : St) (now : Nat) : St → Option ExpRes → Prop
   | orphan (q : DelayQ) (e : DqEntry) (hp : s.timers.pollExpired now = (q, .expired e))
       (hf : findEntry { s with timers := q } e.val = none) : ExpShape s now { s with timers := q } (some .ready)
   | abort (q : DelayQ) (e : DqEntry) (en : SEntry) (hp : s.timers.pollExpired now = (q, .expired e))
-      (hf : findEntry { s with timers := q } e.val = some en) (h0 : en.remainder - (now - e.whenMs * nsPerMs) = 0) :
+      (hf : findEntry { s with timers := q } e.val = some en) (h0 : restOf now en = 0) :
       ExpShape s now (abortExec { s with timers := q, inflight := s.inflight.filter (·.id != e.val) } en.rid) (some .ready)
   | rearmed (q : DelayQ) (e : DqEntry) (en : SEntry) (s2 : St) (hp : s.timers.pollExpired now = (q, .expired e))
-      (hf : findEntry { s with timers := q } e.val = some en) (h0 : en.remainder - (now - e.whenMs * nsPerMs) ≠ 0)
-      (hr : rearm { s with timers := q } now (now - e.whenMs * nsPerMs) en = some s2) : ExpShape s now s2 none
+      (hf : findEntry { s with timers := q } e.val = some en) (h0 : restOf now en ≠ 0)
+      (hr : rearm { s with timers := q } now en = some s2) : ExpShape s now s2 none
   | panicked (q : DelayQ) (e : DqEntry) (en : SEntry) (hp : s.timers.pollExpired now = (q, .expired e))
-      (hf : findEntry { s with timers := q } e.val = some en) (h0 : en.remainder - (now - e.whenMs * nsPerMs) ≠ 0)
-      (hr : rearm { s with timers := q } now (now - e.whenMs * nsPerMs) en = none) :
+      (hf : findEntry { s with timers := q } e.val = some en) (h0 : restOf now en ≠ 0)
+      (hr : rearm { s with timers := q } now en = none) :
       ExpShape s now (emit { s with poisoned := true } (.panic (tid s) "DelayQueue::insert: invalid deadline"))
         (some .closed)
 
@@ -117,12 +119,12 @@ theorem expireStep_shape (s : St) (now : Nat) : ExpShape s now (expireStep s now
     · next en hf =>
       split
       · next h0 =>
-        have h0' : en.remainder - (now - e.whenMs * nsPerMs) ≠ 0 := by simpa using h0
+        have h0' : restOf now en ≠ 0 := by simpa using h0
         split
         · next s2 hr => exact ExpShape.rearmed q e en s2 hp hf h0' hr
         · next hr => exact ExpShape.panicked q e en hp hf h0' hr
       · next h0 =>
-        have h0' : en.remainder - (now - e.whenMs * nsPerMs) = 0 := by simpa using h0
+        have h0' : restOf now en = 0 := by simpa using h0
         exact ExpShape.abort q e en hp hf h0'
     · next hf => exact ExpShape.orphan q e hp hf
   · next q hp => exact ExpShape.idleNone q hp
